@@ -16,6 +16,9 @@ OkFormatD(e) ==
   IN  /\ e.ub = 0
       /\ e.out = WDec(s[1]) \o Bar \o FracDigits(fs, 15) \o Bar \o FracDigits(fs, 3) \o Bar \o FracStar(fs) \o Bar
                    \o Bar \o D2(ss) \o Bar \o D2(ss) \o <<46>> \o FracDigits(fs, 2)
+                   \* more digits than femtoseconds (zeros on the right), and several fractional fields in one format
+                   \o Bar \o FracDigits(fs, 16) \o Bar \o D2(ss) \o <<46>> \o FracDigits(fs, 18)
+                   \o Bar \o FracDigits(fs, 1) \o <<32>> \o D2(ss) \o (IF fs = WZero THEN <<>> ELSE <<46>> \o FracStar(fs)) \o <<32>> \o FracDigits(fs, 6)
 \* format then parse into the same representation recovers the count (sub-second: ticks are exact
 \* multiples only when Den divides 10^15; the 1/3-second type floors to the tick at or below)
 OkParseBack(e) ==
